@@ -500,3 +500,40 @@ Definition table_old : list access := [
   mk "TransactionalValue" "update" 93 "currentValue" true false "mutex";
   mk "TransactionalValue" "update" 93 "queuedValue" true false "mutex";
   mk "TransactionalValue" "update" 94 "newValue" true false "mutex" ].
+
+(* ------------------------------------------------------ closed member list *)
+(* every declaration written in the bodies of the two classes, as the models above cover
+   them: a data member, a method, a changed signature or a default argument that is not
+   listed here is outside the models (theorem interface_closed in LocksetProp.v, on the
+   list regenerated from the clang AST on every run) *)
+Record member := { m_class : String.string; m_kind : String.string; m_name : String.string; m_sig : String.string }.
+Definition member_eqb (a b : member) : bool :=
+  seqb (m_class a) (m_class b) && seqb (m_kind a) (m_kind b) && seqb (m_name a) (m_name b) && seqb (m_sig a) (m_sig b).
+Fixpoint members_eqb (l1 l2 : list member) : bool :=
+  match l1, l2 with
+  | [], [] => true
+  | a :: t1, b :: t2 => member_eqb a b && members_eqb t1 t2
+  | _, _ => false
+  end.
+Definition mkm (c k n t : String.string) : member := {| m_class := c; m_kind := k; m_name := n; m_sig := t |}.
+Definition expected_members : list member := [
+  mkm "TransactionalBuffer" "field" "buffer" "std::vector<T>";
+  mkm "TransactionalBuffer" "field" "bufferMutex" "std::mutex";
+  mkm "TransactionalBuffer" "method" "<ctor>" "void () =default";
+  mkm "TransactionalBuffer" "method" "consume" "std::vector<T> ()";
+  mkm "TransactionalBuffer" "method" "empty" "bool () const";
+  mkm "TransactionalBuffer" "method" "push_back" "void (T &&)";
+  mkm "TransactionalBuffer" "method" "push_back" "void (const T &)";
+  mkm "TransactionalBuffer" "method" "size" "size_t () const";
+  mkm "TransactionalValue" "field" "currentValue" "T";
+  mkm "TransactionalValue" "field" "mutex" "std::mutex";
+  mkm "TransactionalValue" "field" "newValue" "std::atomic<bool>";
+  mkm "TransactionalValue" "field" "queuedValue" "T";
+  mkm "TransactionalValue" "method" "<ctor>" "template void (const OtherType &)";
+  mkm "TransactionalValue" "method" "<ctor>" "void () =default";
+  mkm "TransactionalValue" "method" "<dtor>" "void () =default";
+  mkm "TransactionalValue" "method" "get" "T ()";
+  mkm "TransactionalValue" "method" "operator=" "TransactionalValue<T> &(const TransactionalValue<T> &)";
+  mkm "TransactionalValue" "method" "operator=" "template TransactionalValue<T> &(const OtherType &)";
+  mkm "TransactionalValue" "method" "ref" "T &()";
+  mkm "TransactionalValue" "method" "update" "bool ()" ].
